@@ -79,3 +79,50 @@ Definition fmt_integer_mem (f : fst_) (u0 : Z) (base : Z) (isSigned : bool) (ver
   else if zero x && widPresent x then
     go (if negative || plus x || space x then wid f - 1 else wid f)
   else go 0.
+
+(* ---------- fmtUnicode ---------- *)
+(* len(buf): f.intbuf, or 2 + prec + 2 + utf8.UTFMax + 1 bytes when an explicit precision above 4
+   makes that larger *)
+Definition uscratch_len (f : fst_) : Z :=
+  if precPresent (fl f) && (4 <? prec f)
+  then (if 68 <? 2 + prec f + 2 + 4 + 1 then 2 + prec f + 2 + 4 + 1 else 68)
+  else 68.
+
+(* i -= len(cs); copy(buf[i:], cs)   (utf8.EncodeRune into buf[i:]) *)
+Definition put_block (cs : bytes) (s : option scr) : option scr :=
+  match s with
+  | Some (i, ds) => if zlen cs <=? i then Some (i - zlen cs, (cs ++ ds)%list) else None
+  | None => None
+  end.
+
+(* for prec > 0 { i--; buf[i] = '0'; prec-- } *)
+Fixpoint zeros_n (n : nat) (s : option scr) : option scr :=
+  match n with O => s | S k => zeros_n k (put 48%N s) end.
+
+Definition fmt_unicode_mem (o : oracle) (f : fst_) (u : Z) : option (option (list wop)) :=
+  (* outer option: None = index out of range; inner option: None = oracle entry missing *)
+  let x := fl f in
+  let prec := if precPresent x && (4 <? prec f) then prec f else 4 in
+  let s0 : option scr := Some (@pair Z bytes (uscratch_len f) (@nil N)) in
+  let quoted : option bool :=
+    if sharp x && (u <=? MaxRune) then
+      match olookup o (KIsPrint u) with
+      | None => None
+      | Some [49%N] => Some true
+      | Some _ => Some false
+      end
+    else Some false in
+  match quoted with
+  | None => Some None
+  | Some q =>
+    let s1 := if q then put 32%N (put 39%N (put_block (encode_rune u) (put 39%N s0))) else s0 in
+    let before := match s1 with Some (_, ds) => zlen ds | None => 0 end in
+    let s2 := digits_mem 70 true 16 u s1 in
+    let written := match s2 with Some (_, ds) => zlen ds - before | None => 0 end in
+    let s3 := zeros_n (Z.to_nat (prec - written)) s2 in
+    let s4 := put 85%N (put 43%N s3) in
+    match s4 with
+    | Some (_, ds) => Some (Some (pad (set_zero f false) ds))
+    | None => None
+    end
+  end.
